@@ -1,6 +1,10 @@
 import SecpZkp.Driver.Core
 import SecpZkp.Gen.K_field5x52
 import SecpZkp.Gen.K_ct
+import SecpZkp.Gen.K_ct32
+import SecpZkp.Gen.K_field10x26
+import SecpZkp.Gen.K_scalar4x64
+import SecpZkp.Gen.K_scalar8x32
 /-
   `k_run <set>.<def> <in>* / <out>*` : executes a translated C function (MiniC IR regenerated from the
   sources by tools/c2lean_k.py) on concrete inputs.  The harness runs the real C function on the same
@@ -13,7 +17,9 @@ namespace Driver
 open MiniC
 
 def kTable : List (String × Fn) :=
-  (Gen.field5x52.all.map fun p => ("field5x52." ++ p.1, p.2)) ++ (Gen.ct.all.map fun p => ("ct." ++ p.1, p.2))
+  (Gen.field5x52.all.map fun p => ("field5x52." ++ p.1, p.2)) ++ (Gen.ct.all.map fun p => ("ct." ++ p.1, p.2)) ++
+  (Gen.field10x26.all.map fun p => ("field10x26." ++ p.1, p.2)) ++ (Gen.ct32.all.map fun p => ("ct32." ++ p.1, p.2)) ++
+  (Gen.scalar4x64.all.map fun p => ("scalar4x64." ++ p.1, p.2)) ++ (Gen.scalar8x32.all.map fun p => ("scalar8x32." ++ p.1, p.2))
 
 def hexNat? (s : String) : Option Nat :=
   s.toList.foldlM (fun acc c => (Bytes.hexVal c).map (fun d => acc * 16 + d)) 0
